@@ -1,5 +1,6 @@
 import TexcraftModel.Lemmas.C06
 import TexcraftModel.Lemmas.C06Print
+import TexcraftModel.Lemmas.C06Scan
 
 /-!
 # C06 — property theorems
@@ -140,6 +141,115 @@ theorem scan_int_clamp (radix : Int) (hr : 2 ≤ radix ∧ radix ≤ 16) (ds : L
 
 example : scanInt true 10 [2, 1, 4, 7, 4, 8, 3, 6, 4, 8] = (-2147483647, 1) := by decide
 example : scanInt false 16 [7, 15, 15, 15, 15, 15, 15, 15] = (2147483647, 0) := by decide
+
+/-! ## Units, dimensions -/
+
+/-- `Scaled::new` = TeX §458 (`xn_over_d`, the fraction adjustment, `attach_fraction`,
+`attach_sign`) for each of the 9 units, any integer part `0 ≤ ip ≤ 2^31-1` and any fraction
+`0 ≤ f ≤ 2^16` (that is what `from_decimal_digits` can return): same value; `OverflowError`
+exactly when TeX says "Dimension too large"; and never a panic — the two `expect`s in
+`Scaled::new` are unreachable. -/
+theorem scaled_new_eq_scan_dimen (u : TUnit) (ip f : Int) (hip : 0 ≤ ip ∧ ip ≤ 2147483647)
+    (hf : 0 ≤ f ∧ f ≤ 65536) :
+    (match scaledNew ip f u with
+      | .ok s => Spec.SR.ok s 0 0 | .overflow => Spec.SR.ok maxDimen 1 0 | .panic => Spec.SR.undef)
+      = Spec.units ip f false 0 (.phys u) :=
+  scaledNew_eq u ip f hip.1 hip.2 hf.1 hf.2
+
+theorem scaled_new_total (u : TUnit) (ip f : Int) (hip : 0 ≤ ip ∧ ip ≤ 2147483647)
+    (hf : 0 ≤ f ∧ f ≤ 65536) : scaledNew ip f u ≠ .panic :=
+  scaledNew_no_panic u ip f hip.1 hip.2 hf.1 hf.2
+
+example : scaledNew 226 (fromDecimalDigits [7]) .inch = .ok 1073716184 ∧ scaledNew 227 0 .inch = .overflow := by decide
+example : scaledNew 1073741823 65536 .sp = .ok 1073741823 := by decide
+
+/-- `scan_and_apply_units` = TeX §453–§459 + `attach_fraction` + `attach_sign` for every kind of
+unit: `fil`/`fill`/`filll` (with the error per surplus `l`), internal integers, dimensions and
+glue, `em`/`ex`, the physical units, and a missing unit (error, `pt`). Same value, same error
+count, same order. Excluded (decidable hypothesis): the recorded deviation C06-f. -/
+theorem apply_units_eq_knuth (ip f : Int) (hip : 0 ≤ ip ∧ ip ≤ 2147483647) (hf : 0 ≤ f ∧ f ≤ 65536)
+    (u : UnitSpec) (hex : negUnitOverflow ip f u = false) :
+    (applyUnits ip f u).toSR = Spec.units ip f false 0 u :=
+  applyUnits_eq ip f hip.1 hip.2 hf.1 hf.2 u hex
+
+/-- `scan_dimen` = TeX §448–§460 for every sign string parity, head (constant in radix
+8/10/16 with or without fraction, `.ddd`, internal integer, internal dimension) and unit: same
+value, same number of errors ("number too big", "illegal unit", "dimension too large"), clamped
+to `±max_dimen` exactly when TeX clamps. -/
+theorem scan_dimen_eq_knuth (neg : Bool) (h : Head) (u : UnitSpec) (wf : h.WF)
+    (hex : negUnitOverflow (coeff h).1 (coeff h).2 u = false) :
+    (scanDimen neg h u).toSR = Spec.scanDimen neg h u :=
+  scanDimen_eq neg h u wf hex
+
+/-- `16383.99998pt` is the largest dimension; one more digit is too large and is clamped. -/
+example : scanDimen true (.const 10 [1,6,3,8,3] (some [9,9,9,9,8])) (.phys .pt) = .ok { val := -1073741823, nerr := 0 } := by decide
+example : scanDimen false (.const 10 [1,6,3,8,3] (some [9,9,9,9,9,9])) (.phys .pt) = .ok { val := 1073741823, nerr := 1 } := by decide
+/-- C06-g at its witness (fixed model): `16383.999999fil` is too large. -/
+example : scanDimen false (.const 10 [1,6,3,8,3] (some [9,9,9,9,9,9])) (.fil 0)
+    = .ok { val := 1073741823, nerr := 1, order := 1 } := by decide
+/-- C06-b/C09-b at its witness (fixed model): the internal integer `-2^31`, every unit. -/
+example : ∀ u : TUnit, scanDimen false (.int (-2147483648)) (.phys u) = .ok { val := -1073741823, nerr := 1 } ∧
+    Spec.scanDimen false (.int (-2147483648)) (.phys u) = .ok (-1073741823) 1 0 := by
+  intro u; cases u <;> decide
+/-- C06-c/C09-c at its witness (fixed model). -/
+example : scanDimen false (.const 10 [0] (some [9,9,9,9,9,9])) (.internal 2147483647)
+    = .ok { val := 1073741823, nerr := 1 } := by decide
+/-- C06-e at its witness (fixed model): an internal dimension beyond `max_dimen`. -/
+example : scanDimen false (.dimen 1073741824) .bad = .ok { val := 1073741823, nerr := 1 } := by decide
+/-- The recorded deviation C06-f at its witness: `\dimen3=-1pt \dimen0=20000\dimen3` — the
+code (and so the model) gives `-max_dimen`, TeX `+max_dimen`; the hypothesis of
+`scan_dimen_eq_knuth` is false exactly here. -/
+example : scanDimen false (.const 10 [2,0,0,0,0] none) (.internal (-65536)) = .ok { val := -1073741823, nerr := 1 } ∧
+    Spec.scanDimen false (.const 10 [2,0,0,0,0] none) (.internal (-65536)) = .ok 1073741823 1 0 ∧
+    negUnitOverflow 20000 0 (.internal (-65536)) = true := by decide
+
+/-! ## Totality (shared with C09) -/
+
+/-- `scan_dimen` answers a value within `±max_dimen` and an error count on every 32-bit input
+(including the internal integer `-2^31` and over-large internal units): never `panic`. -/
+theorem scan_dimen_total (neg : Bool) (h : Head) (u : UnitSpec) (wf : h.WF32) :
+    ∃ sc, scanDimen neg h u = .ok sc ∧ -1073741823 ≤ sc.val ∧ sc.val ≤ 1073741823 :=
+  scanDimen_total neg h u wf
+
+/-- An integer constant always yields a 32-bit value. -/
+theorem scan_int_total (neg : Bool) (radix : Int) (hr : radix = 10 ∨ radix = 8 ∨ radix = 16)
+    (ds : List Nat) (hd : ∀ d ∈ ds, (d : Int) < radix) :
+    -2147483647 ≤ (scanInt neg radix ds).1 ∧ (scanInt neg radix ds).1 ≤ 2147483647 := by
+  have := scan_const_range radix hr ds hd
+  unfold scanInt
+  generalize scanConst radix ds = c at *
+  obtain ⟨v, e⟩ := c
+  simp only [] at this ⊢
+  cases neg
+  · simp; omega
+  · have : wrap32 (-v) = -v := by unfold wrap32; omega
+    simp [this]; omega
+
+/-- `display_no_units` does not panic on any integer at all (not only legal dimensions). -/
+theorem print_total (s : Int) : printScaled s ≠ none := by
+  intro h
+  by_cases hs : 0 ≤ s
+  · rw [printScaled_nonneg s hs] at h
+    obtain ⟨ds, h1, _⟩ := fracOK_unpack _ (fracOK_all (s % 65536).natAbs (by omega))
+    rw [h1] at h; simp at h
+  · have := printScaled_neg (-s) (by omega)
+    rw [Int.neg_neg] at this
+    rw [this] at h
+    obtain ⟨ds, h1, _⟩ := fracOK_unpack _ (fracOK_all (-s % 65536).natAbs (by omega))
+    rw [h1] at h; simp at h
+
+/-- The arithmetic kernels answer `ok` or `overflow`, never `panic`, on their domains. -/
+theorem nx_plus_y_total (x n y : Int) : nxPlusY x n y ≠ .panic := by
+  unfold nxPlusY
+  split
+  · simp
+  · simp only []; split <;> simp
+
+theorem xn_over_d_total (x n d : Int) (hn : n ≤ 65536) (hd : 0 < d ∧ d ≤ 65536) : xnOverD x n d ≠ .panic := by
+  unfold xnOverD
+  rw [if_neg (by omega), if_neg (by omega)]
+  simp only []
+  split <;> simp
 
 /-! ## `\advance`, `\multiply`, `\divide` -/
 
